@@ -5,6 +5,7 @@ import (
 	"context"
 	"fmt"
 	"io"
+	"net"
 	"os"
 	"runtime"
 	"sort"
@@ -232,6 +233,33 @@ type run struct {
 	hooks   []func() // run at every quiescent point
 	cntPulled map[cntKey]int64
 	abrupt  bool // the peer closed a connection abruptly on purpose
+	spies   map[int]*spyConn
+}
+
+// spyConn is the client's end of a connection as handed to grpc: it records
+// when the client closes it (simnet does not expose that).
+type spyConn struct {
+	net.Conn
+	closed   bool
+	closedAt time.Time
+}
+
+func (c *spyConn) Close() error {
+	if !c.closed {
+		c.closed = true
+		c.closedAt = time.Now()
+	}
+	return c.Conn.Close()
+}
+
+func (w *run) dial(ctx context.Context, addr string) (net.Conn, error) {
+	c, err := w.net.Dial(ctx, addr)
+	if err != nil {
+		return nil, err
+	}
+	sp := &spyConn{Conn: c}
+	w.spies[c.(*simnet.Conn).P.Index] = sp
+	return sp, nil
 }
 
 func (w *run) peer(idx int) *peerConn {
@@ -283,7 +311,7 @@ const defaultDeadline = 10 * time.Minute
 // Run executes a scenario.
 func Run(e *core.Env, sc *Scenario) {
 	w := &run{e: e, sc: sc, rpcs: map[uint32]*rpcState{}, views: map[int]*cview{}, attempts: map[uint32]int{},
-		qsig: make(chan struct{}, 1), qstop: make(chan struct{}), qdone: make(chan struct{}), cntPulled: map[cntKey]int64{}}
+		qsig: make(chan struct{}, 1), qstop: make(chan struct{}), qdone: make(chan struct{}), cntPulled: map[cntKey]int64{}, spies: map[int]*spyConn{}}
 	w.faulty = len(sc.Faults) > 0
 	w.trace = sc.has("trace")
 	w.net = simnet.New(e, sc.Net, sc.Faults)
@@ -332,7 +360,7 @@ func Run(e *core.Env, sc *Scenario) {
 	}()
 
 	// client
-	dopts := []grpc.DialOption{grpc.WithTransportCredentials(insecure.NewCredentials()), grpc.WithContextDialer(w.net.Dialer()), grpc.WithDefaultCallOptions(grpc.ForceCodecV2(rawCodec{}))}
+	dopts := []grpc.DialOption{grpc.WithTransportCredentials(insecure.NewCredentials()), grpc.WithContextDialer(w.dial), grpc.WithDefaultCallOptions(grpc.ForceCodecV2(rawCodec{}))}
 	cc := sc.Client
 	if cc.Static {
 		if cc.StreamWindow > 0 {
@@ -1334,9 +1362,12 @@ func (w *run) checkStreamQuota() {
 // afterClose runs after ClientConn.Close: every connection must be closed by
 // the client.
 func (w *run) afterClose() {
-	for _, pc := range w.peers {
-		if pc != nil && !pc.dead && w.sc.has("closed_at_end") {
-			w.e.Violate("connection_open_after_close", "conn %d is still open after ClientConn.Close", pc.idx)
+	if !w.sc.has("closed_at_end") {
+		return
+	}
+	for _, idx := range w.viewIdx() {
+		if sp := w.spies[idx]; sp != nil && !sp.closed {
+			w.e.Violate("connection_open_after_close", "conn %d has not been closed by the client after ClientConn.Close", idx)
 		}
 	}
 }
